@@ -569,4 +569,51 @@ def settleCommitmentsOps (ins outs : List (Addr × Coins)) (rs : List (Option Ad
   ins.map (fun p => Op.releaseHold p.1 p.2) ++ [doTransferOp ins outs rs] ++
     outs.map (fun p => Op.addHold {} p.1 p.2)
 
+/-! ### a transaction: the fee-payment route
+
+`internal/antewrapper/provenance_fee.go` `checkDeductBaseFee` :76 deducts the base fee (floor gas
+price × gas) from the fee payer — the signer, or the granter of a fee grant — in the ante handler:
+`DeductFees` :221 → `SendCoinsFromAccountToModule(payer, fee_collector, baseFee)` (:138, skipped
+when the base fee is zero), in the transaction's context; `WithFeeGrantInUse` (:136) only feeds the
+marker send restriction.  After the messages, `internal/handlers/msg_fee_invoker.go` `Invoke` :37
+sweeps the rest of the stated fee from the same payer: `DeductFeesDistributions`
+(x/msgfees/keeper/keeper.go:140, no per-message fees here) →
+`SendCoinsFromAccountToModule(payer, fee_collector, rest)` (:170, skipped when nothing is left).
+
+`baseapp.runTx` (forked SDK baseapp.go:880): the ante handler runs on a branch of the state that
+is written when it succeeds (:947); the messages and the fee handler run on a second branch that
+is written only when all of them succeed (:1003) — a failing message keeps the base fee paid. -/
+
+/-- one fee deduction: `SendCoinsFromAccountToModule(payer, fee_collector, fee)` unless `fee` is zero -/
+def deductFeeOps (payer feeCollector : Addr) (fee : Coins) : List Op :=
+  if isZero fee then [] else [.send {} payer feeCollector fee (some feeCollector)]
+
+inductive TxOutcome where
+  /-- the ante handler refused the transaction: nothing is written -/
+  | anteFailed (e : Err)
+  /-- a message or the fee handler failed: only the ante handler's writes stay -/
+  | msgsFailed (afterAnte : State) (e : Err)
+  | done (s' : State)
+
+/-- `baseapp.runTx` in deliver mode: `ante` = what the ante handler does, `msgs` = what the
+messages and then the fee handler do. -/
+def runTx (s : State) (ante msgs : List Op) : TxOutcome :=
+  match applyAll s ante with
+  | .error e => .anteFailed e
+  | .ok s₁ =>
+    match applyAll s₁ msgs with
+    | .error e => .msgsFailed s₁ e
+    | .ok s₂ => .done s₂
+
+/-- the state after the transaction -/
+def TxOutcome.state (s : State) : TxOutcome → State
+  | .anteFailed _ => s
+  | .msgsFailed s₁ _ => s₁
+  | .done s₂ => s₂
+
+/-- a transaction of the signer `p` whose fee is paid by `payer`: the ante handler deducts
+`baseFee`; then the messages `body` run and the fee handler sweeps `rest` -/
+def feeTx (s : State) (payer feeCollector : Addr) (baseFee rest : Coins) (body : List Op) : TxOutcome :=
+  runTx s (deductFeeOps payer feeCollector baseFee) (body ++ deductFeeOps payer feeCollector rest)
+
 end PvModel.Lock
